@@ -402,7 +402,17 @@ pub fn generate_with_grid(rng: &mut Rng, cfg: &GenCfg) -> (PragProblem, Vec<(i64
         }
         if has_skills && rng.chance(0.35) {
             let mut sk = Map::new();
-            match rng.usize_below(4) {
+            match rng.usize_below(6) {
+                // exclusion lists of different length (one a strict superset of the other) within one problem
+                4 => {
+                    let first = rng.usize_below(skills_pool.len());
+                    let second = (first + rng.range_usize(1, skills_pool.len() - 1)) % skills_pool.len();
+                    sk.insert("noneOf".into(), json!([skills_pool[first], skills_pool[second]]));
+                }
+                5 => {
+                    sk.insert("allOf".into(), json!([skills_pool[0]]));
+                    sk.insert("noneOf".into(), json!([skills_pool[1], skills_pool[2]]));
+                }
                 0 => {
                     sk.insert("allOf".into(), json!([*rng.pick(&skills_pool)]));
                 }
@@ -720,6 +730,28 @@ pub fn generate_with_grid(rng: &mut Rng, cfg: &GenCfg) -> (PragProblem, Vec<(i64
             let ids: Vec<Value> = (0..n).filter_map(|_| jobs[rng.usize_below(jobs.len())].get("id").cloned()).collect();
             clustering["filtering"] = json!({"excludeJobIds": ids});
             features.insert("clustering-filtering".into());
+        }
+        // clusters keep the skills of their centre job only: neighbouring jobs get exclusion lists of different length (one a strict
+        // superset of the other), and the first vehicle type owns the skill which only the longer list excludes
+        if rng.chance(0.5) {
+            let first = rng.usize_below(skills_pool.len());
+            let (a, b) = (skills_pool[first], skills_pool[(first + 1) % skills_pool.len()]);
+            let mut touched = 0;
+            for job in jobs.iter_mut() {
+                let simple = ["deliveries", "pickups", "services", "replacements"].iter().filter_map(|k| job.get(*k).and_then(|t| t.as_array()).map(|t| t.len())).sum::<usize>() == 1;
+                if simple && !job.contains_key("skills") && rng.chance(0.6) {
+                    let none_of = if rng.chance(0.5) { json!([a]) } else { json!([a, b]) };
+                    job.insert("skills".into(), json!({"noneOf": none_of}));
+                    touched += 1;
+                }
+            }
+            if touched > 0 {
+                if let Some(v0) = fleet.get_mut("vehicles").and_then(|v| v.as_array_mut()).and_then(|v| v.first_mut()) {
+                    v0["skills"] = json!([b]);
+                }
+                features.insert("skills".into());
+                features.insert("clustering-nested-none-of".into());
+            }
         }
         plan.insert("clustering".into(), clustering);
         features.insert("clustering".into());
